@@ -6,6 +6,7 @@ import (
 	"hash/fnv"
 	"os"
 	"path/filepath"
+	"runtime/debug"
 	"sort"
 	"strconv"
 	"strings"
@@ -20,33 +21,33 @@ type Stats struct {
 	Seed     uint64 `json:"seed"`
 	Worker   int    `json:"worker"`
 
-	Plans       int64            `json:"plans"`       // generated plans (before expansion)
-	Cases       int64            `json:"cases"`       // concrete plans checked
-	Execs       int64            `json:"execs"`       // executions of the system under test
-	Skipped     int64            `json:"skipped"`     // cases skipped (query rejected by the parser)
-	SimNs       int64            `json:"sim_ns"`      // fake-clock time covered
-	Transport   int64            `json:"transport"`   // transport events simulated
-	WallNs      int64            `json:"wall_ns"`     // wall time spent
-	ByConfig    map[string]int64 `json:"by_config"`   // cases per configuration
-	Probes      map[string]int64 `json:"probes"`      // reach probes
-	Planned     map[string]int64 `json:"planned"`     // faults planned per kind
-	Fired       map[string]int64 `json:"fired"`       // faults that actually fired per kind
-	Observed    map[string]int64 `json:"observed"`    // faults the code under test was told about
-	Signatures  []uint64         `json:"signatures"`  // distinct non-trivial case signatures
-	Schedules   []uint64         `json:"schedules"`   // distinct (batch size, permutation) pairs
-	LogHashes   []uint64         `json:"log_hashes"`  // distinct event-log hashes (interleavings/states reached)
-	Samples     []*Plan          `json:"samples"`     // a few of the plans actually run
-	Violations  []*Plan          `json:"violations"`  // minimised failing plans
-	Known       []string         `json:"known"`       // known findings that were reproduced
-	ReplayFiles []string         `json:"replay_files"`
-	HarnessErr  string           `json:"harness_err,omitempty"`
+	Plans       int64             `json:"plans"`      // generated plans (before expansion)
+	Cases       int64             `json:"cases"`      // concrete plans checked
+	Execs       int64             `json:"execs"`      // executions of the system under test
+	Skipped     int64             `json:"skipped"`    // cases skipped (query rejected by the parser)
+	SimNs       int64             `json:"sim_ns"`     // fake-clock time covered
+	Transport   int64             `json:"transport"`  // transport events simulated
+	WallNs      int64             `json:"wall_ns"`    // wall time spent
+	ByConfig    map[string]int64  `json:"by_config"`  // cases per configuration
+	Probes      map[string]int64  `json:"probes"`     // reach probes
+	Planned     map[string]int64  `json:"planned"`    // faults planned per kind
+	Fired       map[string]int64  `json:"fired"`      // faults that actually fired per kind
+	Observed    map[string]int64  `json:"observed"`   // faults the code under test was told about
+	Signatures  []uint64          `json:"signatures"` // distinct non-trivial case signatures
+	Schedules   []uint64          `json:"schedules"`  // distinct (batch size, permutation) pairs
+	LogHashes   []uint64          `json:"log_hashes"` // distinct event-log hashes (interleavings/states reached)
+	Samples     []*Plan           `json:"samples"`    // a few of the plans actually run
+	Violations  []*Plan           `json:"violations"` // minimised failing plans
+	Known       []string          `json:"known"`      // known findings that were reproduced
+	ReplayFiles []string          `json:"replay_files"`
+	HarnessErr  string            `json:"harness_err,omitempty"`
 	RunHashes   map[string]string `json:"run_hashes,omitempty"` // run index -> event log hash (determinism self-test)
 
 	wantHashes bool
 	caseHash   uint64
 	sigSet     map[uint64]struct{}
-	schedSet map[uint64]struct{}
-	logSet   map[uint64]struct{}
+	schedSet   map[uint64]struct{}
+	logSet     map[uint64]struct{}
 }
 
 func newStats() *Stats {
@@ -280,7 +281,12 @@ func Main(t *testing.T) {
 				writeOut()
 				return
 			}
-			panic(r)
+			// A panic that reaches this goroutine comes from the generator or an
+			// oracle (panics of the system under test are caught inside the bubble):
+			// harness trouble, never a verdict.
+			st.HarnessErr = fmt.Sprintf("harness panic: %v\n%s", r, clip(string(debug.Stack()), 3000))
+			writeOut()
+			return
 		}
 	}()
 
@@ -346,7 +352,6 @@ func Main(t *testing.T) {
 	}
 	writeOut()
 }
-
 
 // attachLog stores the event log of every variant in the plan.
 func attachLog(t *testing.T, _ Property, p *Plan) {
